@@ -397,6 +397,20 @@ fn oracle_c01(plan: &ResolvePlan, obs: &Observations) -> RunResult {
         let rrs = result_records(q);
         let ctxd = || json!({"q": qfacts(q), "exchanges": exchange_summary(obs, q), "recursive": q.recursive});
 
+        // I6: a question for the alias itself is answered by the alias, never by what
+        // it points to - wherever the alias and its target come from
+        if qtype == QueryType::Record(RecordType::CNAME) {
+            if let Some(stray) = rrs.iter().find(|rr| {
+                !names_equal(&rr.name.to_dotted_string(), &qname)
+                    || !matches!(rr.rtype_with_data, RecordTypeWithData::CNAME { .. })
+            }) {
+                res.violations.push(
+                    Violation::new("c01.cname_question_followed")
+                        .fact("mode", plan.knobs.mode.clone())
+                        .detail(json!({"record": show_rr(stray), "run": ctxd()})),
+                );
+            }
+        }
         // I1: records for names an authoritative zone owns come from that zone
         for rr in &rrs {
             let name = rr.name.to_dotted_string();
